@@ -1,10 +1,14 @@
 use super::binding::{SoapBinding, SoapOperation};
 use crate::{
     error::{WriterError, WriterResult},
-    model::{TryFromNode, field::resolve_type},
+    model::{
+        TryFromNode,
+        field::{as_field_name, resolve_type},
+        structures::xml_name_to_rust_name,
+    },
     reader::WriteXml,
 };
-use inflector::cases::{pascalcase::to_pascal_case, snakecase::to_snake_case};
+use inflector::cases::pascalcase::to_pascal_case;
 use reqwest::Url;
 use std::{io, rc::Rc};
 
@@ -61,15 +65,16 @@ where
     W: io::Write,
 {
     fn write_xml(&self, writer: &mut W) -> WriterResult<()> {
-        // create a wrapping Rust struct for the service
-        writeln!(writer, "pub struct {} {{", self.name)?;
+        // create a wrapping Rust struct for the service, named like any other generated type
+        let service_name = xml_name_to_rust_name(&self.name);
+        writeln!(writer, "pub struct {service_name} {{")?;
         writeln!(writer, "    pub client: reqwest::Client,")?;
         writeln!(writer, "    pub location: String,")?;
         writeln!(writer, "    pub credentials: Option<(String, String)>,")?;
         writeln!(writer, "}}")?;
 
         // create an implementation for the service
-        writeln!(writer, "impl {} {{", self.name)?;
+        writeln!(writer, "impl {service_name} {{")?;
         writeln!(
             writer,
             "    pub fn new(credentials: Option<(String, String)>) -> Self {{"
@@ -97,7 +102,7 @@ where
     W: io::Write,
 {
     // generate an async fn for the operation
-    let rust_fn_name = to_snake_case(operation_name);
+    let rust_fn_name = as_field_name(operation_name);
     // the envelope types are named by the binding writer in PascalCase
     let operation_name = to_pascal_case(operation_name);
     let request_name = format!("{operation_name}InputEnvelope");
